@@ -18,7 +18,10 @@ def waitSkeleton : String :=
   "(block (if _ (!= v1 nil) (block (:= (v2) ((call (. v0 getLoading)))) (for _ (!= v2 nil) _ (block (if _ (== v2 v1) (block (return nil (call (. fmt Errorf) \"cyclic dependency on %v\" (. v0 label)))) _) (= (v2) ((call (. v2 getLoading))))))) _) (call (. (. v0 m) Lock)) (defer (call (. (. v0 m) Unlock))) (for _ (u! (. v0 loaded)) _ (block (call (. (. v0 cond) Wait)))) (return (. v0 data) (. v0 err)))"
 
 def loadSkeleton : String :=
-  "(block (if _ (!= v4 nil) (block (return nil v4)) _) (:= (v5 v4) ((call (. v0 done) (call (. starlark ExecFile) v2 (. v0 path) nil v3)))) (if _ (!= v4 nil) (block (return nil v4)) _) (return v5 nil))"
+  "(block (if _ (!= v4 nil) (block (return (call (. v0 done) nil v4))) _) (:= (v5 v4) ((call (. v0 done) (call (. starlark ExecFile) v2 (. v0 path) nil v3)))) (if _ (!= v4 nil) (block (return nil v4)) _) (return v5 nil))"
+
+def envErrorPath : String :=
+  "done"
 
 def loadModuleSkeleton : String :=
   "(block (call (. (. v0 m) Lock)) (if (:= (v3 v4) ((index (. v0 modules) (call (. v2 String))))) v4 (block (call (. (. v0 m) Unlock)) (if _ (!= v1 nil) (block (call (. v1 setLoading) v3) (defer (call (. v1 setLoading) nil))) _) (return (call (. v3 wait) v1))) _) (= ((. v3 cond)) ((call (. sync NewCond) (u& (. v3 m))))) (= ((index (. v0 modules) (call (. v2 String)))) (v3)) (call (. (. v0 m) Unlock)) (if _ (!= v1 nil) (block (call (. v1 setLoading) v3) (defer (call (. v1 setLoading) nil))) _) (return (call (. v3 load) v0)))"
